@@ -64,7 +64,7 @@ def t_unary(op, k):
     if op == "~":
         if k in ("I", "U", "n"):
             return (OK, k)
-        if k in ("E", "F"):
+        if k in ("E", "E2", "F"):
             return (UNS, k)
         return (REJ, None)
     if op == "!":
@@ -87,12 +87,12 @@ def t_binary(op, a, b):
     if op in ("&", "^", "|"):
         if u in ("I", "U", "n", "F"):
             return (OK, u)
-        if u in ("B", "E"):
+        if u in ("B", "E", "E2"):
             return (UNS, u)
         return (REJ, None)
     if op in ("<<", ">>"):
-        if a in ("D", "B", "S", "s", "E", "F", "L", "V", "null", "[]") + POINTERS or \
-                b in ("D", "B", "S", "s", "E", "F", "L", "V", "null", "[]") + POINTERS:
+        if a in ("D", "B", "S", "s", "E", "E2", "F", "L", "V", "null", "[]") + POINTERS or \
+                b in ("D", "B", "S", "s", "E", "E2", "F", "L", "V", "null", "[]") + POINTERS:
             return (REJ, None)
         if a == "U" or b == "U":
             return (UNS, concrete(a))
@@ -102,7 +102,7 @@ def t_binary(op, a, b):
             return (UNS, "B")
         if u is None:
             return (REJ, None)
-        if u in ("I", "U", "D", "B", "S", "s", "n", "E", "F") + POINTERS:
+        if u in ("I", "U", "D", "B", "S", "s", "n", "E", "E2", "F") + POINTERS:
             return (OK, "B")
         if u == "V":
             return (REJ, None)
@@ -155,7 +155,7 @@ def t_cast(k, target):
     num = ("I", "U", "D", "n")
     if k in num and t in ("I", "U", "D"):
         return (OK, t)
-    if k in ("E", "F") and t in ("I", "U"):
+    if k in ("E", "E2", "F") and t in ("I", "U"):
         return (OK, t)
     if k == "B" and t in ("I", "U"):
         return (OK, t)
@@ -221,7 +221,7 @@ LEAVES = {
     "I": [("a.i", True)], "n": [("1", False)], "U": [("a.u", True)],
     "D": [("a.d", True), ("1.5", False)], "B": [("a.b", True), ("true", False)],
     "S": [("a.s", True)], "s": [('"s"', False)],
-    "E": [("a.e", True), ("VObj.M1", False)], "F": [("a.f", True), ("VObj.F0", False)],
+    "E": [("a.e", True), ("VObj.M1", False)], "E2": [("a.e2", True), ("VObj.N1", False)], "F": [("a.f", True), ("VObj.F0", False)],
     "P": [("a.p", True), ("a", False)], "PS": [("sub", False)], "PW": [("root", False)],
     "L": [("a.sl", True)], "V": [("a.v", True)], "void": [("a.act()", True)],
     "null": [("null", False)], "[]": [("[]", False)],
